@@ -45,6 +45,7 @@ Definition parse_top (t : bytes) : option (top rop wop) :=
   match t with
   | [x6e] => Some (TPriv WNew)
   | [x78] => Some (TPriv WSer)
+  | [x44] => Some (TPriv WSer)      (* the deprecated JSON aliases: wildcard, judged by the race detector and the sequential run *)
   | [x4a] => Some (TPriv WDecJ)
   | [x43] => Some (TPriv WDecC)
   | x73 :: r => option_map TShared (parse_rop r)
